@@ -347,15 +347,23 @@ class SED(object):
         if self.n_ap == 1:
             return np.repeat(self.flux[0, :], len(apertures)).reshape(self.n_wav, len(apertures))
 
-        # Create interpolating function
-        flux_interp = interp1d(self.apertures, self.flux.swapaxes(0, 1))
+        # Work in the units of the SED apertures (bare numbers are in AU)
+        if isinstance(apertures, u.Quantity):
+            apertures = apertures.to(self.apertures.unit).value
+        else:
+            apertures = (np.asarray(apertures, dtype=float) * u.au).to(self.apertures.unit).value
 
-        # If any apertures are larger than the defined max, reset to max
-        apertures[apertures > self.apertures.max()] = self.apertures.max()
+        sed_apertures = self.apertures.value
+
+        # Create interpolating function
+        flux_interp = interp1d(sed_apertures, self.flux.swapaxes(0, 1))
 
         # If any apertures are smaller than the defined min, raise Exception
-        if np.any(apertures < self.apertures.min()):
+        if np.any(apertures < sed_apertures.min()):
             raise Exception("Aperture(s) requested too small")
+
+        # If any apertures are larger than the defined max, reset to max
+        apertures = np.minimum(apertures, sed_apertures.max())
 
         return flux_interp(apertures)
 
